@@ -2,7 +2,7 @@
 (* Scenario generator for C20 (ii): every allocation order (sequence without repetition) of length 1..MaxLen
    drawn from one colliding family, placed into each namespace kind.  One line "SCEN {...}" per scenario. *)
 EXTENDS Naturals, Sequences, FiniteSets, TLC, Json
-CONSTANTS MaxLen, NsKinds, TagLen
+CONSTANTS MaxLen, NsKinds, TagLen, EnumLen, EnumBig
 VARIABLES sc, done
 
 Families == [ collide  |-> {"a-b", "a_b", "aB", "a b", "A_B"},
@@ -33,7 +33,18 @@ TagOps == UNION {UNION {{[ns |-> "tagops", family |-> f, names |-> q, tags |-> S
                             : q \in InjSeqs(Families[f], k), tg \in TagAssign(k)} : k \in 2..TagLen}
                    : f \in TagFamilies}
 
-Init == /\ sc \in Plain \cup TagOps
+\* "enumvals": the members of one enum are fed by JSON VALUES, not only by strings.  A value is written "<type>:<text>"
+\* (b bool, i integer, n number, s string, z null; the harness decodes it).  The lists mix JSON types whose host-language
+\* values compare equal or hash alike (true / 1 / 1.0 / "1" / "true" / "True", false / 0 / 0.0 / -0.0 / "0" / "" / null,
+\* a large integer and the float of the same magnitude) and contain repeated values; distinctness is judged on type AND value.
+EnumStrVals == {"b:true", "b:false", "i:1", "i:0", "n:1.0", "n:0.0", "n:-0.0", "s:1", "s:0", "s:true", "s:True", "s:", "z:null"}
+                 \cup (IF EnumBig THEN {"i:9007199254740992", "n:9007199254740992.0"} ELSE {})
+EnumIntVals == {"b:true", "b:false", "i:1", "i:0", "i:2", "n:1.0", "s:1"}
+Lists(S, m) == UNION {[1..k -> S] : k \in 1..m}
+EnumVals == {[ns |-> "enumvals", family |-> "string", names |-> q, tags |-> <<>>] : q \in Lists(EnumStrVals, EnumLen)}
+            \cup {[ns |-> "enumvals", family |-> "integer", names |-> q, tags |-> <<>>] : q \in Lists(EnumIntVals, EnumLen)}
+
+Init == /\ sc \in Plain \cup TagOps \cup EnumVals
         /\ done = FALSE
 Emit == /\ ~done
         /\ done' = TRUE
